@@ -946,6 +946,17 @@ impl TypedExpr {
                             continue;
                         }
                         if n < bits {
+                            // The operand must only be evaluated once (it might contain assignments), so
+                            // its wires are bound to a name that no identifier of a program can have:
+                            let operand = "<operand of *>".to_string();
+                            let wires = y.compile(prg, env, circuit);
+                            env.push();
+                            env.let_in_current_scope(operand.clone(), wires);
+                            let y = Box::new(Expr {
+                                inner: ExprEnum::Identifier(operand),
+                                meta: y.meta,
+                                ty: y.ty.clone(),
+                            });
                             let mut expr = y.clone();
                             for _ in 0..n - 1 {
                                 expr = Box::new(Expr {
@@ -955,15 +966,15 @@ impl TypedExpr {
                                 });
                             }
                             if is_neg {
-                                return Expr {
+                                expr = Box::new(Expr {
                                     inner: ExprEnum::UnaryOp(UnaryOp::Neg, expr),
                                     meta,
                                     ty: ty.clone(),
-                                }
-                                .compile(prg, env, circuit);
-                            } else {
-                                return expr.compile(prg, env, circuit);
+                                });
                             }
+                            let product = expr.compile(prg, env, circuit);
+                            env.pop();
+                            return product;
                         }
                     }
                 }
